@@ -121,4 +121,29 @@ def writeChunks (chunks : List Bytes) (failAt : Option Nat) : Except Unit Bytes 
 def MultiProof.chunks (p : MultiProof Fr Pt) : List Bytes :=
   [p.D.bytes] ++ p.ipa.L.map Pt.bytes ++ p.ipa.R.map Pt.bytes ++ [p.ipa.a.bytesLE]
 
+/-! ### vocabulary of the serde translator (`go/cmd/extract/serde.go`) -/
+
+/-- the decoders / encoders the (de)serialisation code calls -/
+structure SerdeEnv (P S : Type) where
+  /-- `banderwagon.Element.SetBytes` (`none` = error) -/
+  decPoint : Bytes → Option P
+  /-- `fr.Element.SetBytesLECanonical` -/
+  decScalar : Bytes → Option S
+  /-- `banderwagon.Element.Bytes` -/
+  encPoint : P → Bytes
+  /-- `fr.Element.BytesLE` -/
+  encScalar : S → Bytes
+  zeroP : P
+
+/-- an `io.Writer` that fails at its `failAt`-th `Write` call (0-based), if any -/
+structure Writer where
+  out : Bytes
+  calls : Nat
+  failAt : Option Nat
+deriving Repr
+
+/-- one `Write` call (`binary.Write` of a byte array issues exactly one) -/
+def Writer.write (w : Writer) (b : Bytes) : Option Writer :=
+  if w.failAt = some w.calls then none else some { w with out := w.out ++ b, calls := w.calls + 1 }
+
 end GoIpa
